@@ -909,8 +909,7 @@ class Interp:
         return d
 
     def dict_key(self, k):
-        if is_symbolic(k):
-            raise Unsupported('symbolic dict key %r' % (k,))
+        # symbolic keys are held by identity (see ops._sym_key_ok)
         return k
 
     def ex_JoinedStr(self, e, fr):
